@@ -93,15 +93,15 @@ def stage_b(ctx, sess, keys, dump, t0):
     world = valkit.World(keys, sess, rng=random.Random(ctx.seed))
     nv = ctx.pick(2, 3)
     cache, n, fams, devs = {}, 0, {}, {}
-    devseen = {'as-coded': 0, 'intended': 0, 'neither': 0}
+    devseen = {'repaired': 0, 'old-behaviour': 0, 'neither': 0}
     sampled = set()
     for st in urikit.read_dump(dump, ('fam', 'c', 'p', 'out')):
         c, p, out = st['c'], norm_p(st['p']), st['out']
         fams[st['fam']] = fams.get(st['fam'], 0) + 1
         if nontrivial(c, p):
             ctx.nt([c, p])
-        if out['v'].startswith('raise'):
-            devs[out['v']] = devs.get(out['v'], 0) + 1
+        if out['old'] != out['v']:
+            devs[out['old']] = devs.get(out['old'], 0) + 1
         pj = json.dumps(p, sort_keys=True)
         for v in range(nv):
             ent = cache.get((pj, v))
@@ -117,9 +117,10 @@ def stage_b(ctx, sess, keys, dump, t0):
                               replay_obj(ctx, world, c, p, cs, 'mix'))
                 continue
             obs = world.observe(c, name, sig)
-            if out['alt'] != out['v']:
-                devseen['as-coded' if obs['v'] == out['v'] else 'intended' if obs['v'] == out['alt'] else 'neither'] += 1
-            if obs['calls'] != out['calls'] or obs['v'] not in (out['v'], out['alt']):
+            if out['old'] != out['v']:
+                # a situation in which the unrepaired code raised (DevLateKeyImport / DevNoSigValue): strict now
+                devseen['repaired' if obs['v'] == out['v'] else 'old-behaviour' if obs['v'] == out['old'] else 'neither'] += 1
+            if obs['calls'] != out['calls'] or obs['v'] != out['v']:
                 report(ctx, 'B', world, c, p, {'v': out['v'], 'calls': out['calls']}, obs, cs, 'mix', wire)
             if st['fam'] not in sampled and obs == {'v': out['v'], 'calls': out['calls']} and out['v'] == 'accept' and len(wire) < 400:
                 sampled.add(st['fam'])
@@ -132,7 +133,7 @@ def stage_b(ctx, sess, keys, dump, t0):
     ctx.extra['val_B_packets_built'] = len(cache)
     ctx.extra['val_B_deviation_cases'] = devs
     ctx.extra['val_B_deviation_behaviour_seen'] = devseen
-    ctx.note('val B: %d cases (%s; %d variants each) on %d packets built; deviation cases %s, library behaves %s there (t=%.0fs)' % (
+    ctx.note('val B: %d cases (%s; %d variants each) on %d packets built; cases where the unrepaired code raised %s, library now %s (t=%.0fs)' % (
         n, ', '.join('%s %d' % kv for kv in sorted(fams.items())), nv, len(cache), devs, devseen, time.perf_counter() - t0))
 
 
